@@ -155,143 +155,3 @@ Proof.
   vm_compute. split; reflexivity.
 Qed.
 
-(* ================================================================ rich comparison *)
-Definition all_cstate := [CU; CN; CTr; CFa].
-Definition all_val := [CN; CTr; CFa].
-Definition all_rcls := [rT; rX; rU].
-Lemma all_cstate_ok : forall x, In x all_cstate. Proof. destruct x; simpl; tauto. Qed.
-Lemma all_rcls_ok : forall x, In x all_rcls. Proof. destruct x; simpl; tauto. Qed.
-Lemma all_cop_ok : forall x, In x all_cop. Proof. destruct x; simpl; tauto. Qed.
-Definition RM_eq_dec : forall a b : RM, {a = b} + {a <> b}.
-Proof. repeat decide equality. Defined.
-Definition rnofuel (m : RM) : bool := match snd m with RFuel => false | _ => true end.
-
-(* a class as seen by operator `op` without total_ordering: the state of the method the operator
-   dispatches to (a), of its reflection - for != : of __eq__ - (b), and whether the class defines any
-   other comparison method (which only decides whether Cython generates a tp_richcompare for it) *)
-Definition view := (cstate * cstate * bool)%type.
-Definition all_view : list view := list_prod (list_prod all_cstate all_cstate) all_bool.
-Lemma all_view_ok : forall x, In x all_view.
-Proof. intros [[a b] o]. repeat apply in_prod; try apply all_cstate_ok. apply all_bool_ok. Qed.
-Definition st_of_view (op : cop) (v : view) (m : cop) : cstate :=
-  let '(a, b, oth) := v in
-  if cop_eqb m op then a
-  else if cop_eqb m (match op with NE => EQ | o => swap o end) then b
-  else if oth then CN else CU.
-
-Definition exc_ne (op : cop) (tv xv : view) (xpy : bool) (L R : rcls) : bool :=
-  let tst := st_of_view op tv in let xst := st_of_view op xv in
-  xpy && cop_eqb op NE && existsb (fun m => match tst m with CU => false | _ => true end) all_cop
-  && (match tst NE with CU => true | _ => false end)
-  && (match xst EQ with CU => false | _ => true end) && (match xst NE with CU => true | _ => false end)
-  && (rcls_eqb L rX || rcls_eqb R rX).
-
-Definition rc_plain (w : world) (nefix : bool) (op : cop) (tv xv : view) (xpy : bool) (ub : cstate) (L R : rcls) : RM :=
-  rc_run w (st_of_view op tv) (st_of_view op xv) false xpy ub ub nefix L R op.
-
-Definition chk_rc (op : cop) (tv xv : view) (xpy : bool) (ub : cstate) (L R : rcls) : bool :=
-  exc_ne op tv xv xpy L R ||
-  ((if RM_eq_dec (rc_plain WPy false op tv xv xpy ub L R) (rc_plain WCy false op tv xv xpy ub L R) then true else false)
-   && rnofuel (rc_plain WCy false op tv xv xpy ub L R)).
-
-Lemma chk_rc_all : forallb (fun op => forallb (fun tv => forallb (fun xv => forallb (fun xpy => forallb (fun ub =>
-  forallb (fun L => forallb (fun R => chk_rc op tv xv xpy ub L R) all_rcls) all_rcls) all_val) all_bool) all_view) all_view)
-  all_cop = true.
-Proof. vm_compute. reflexivity. Qed.
-
-Theorem richcmp_eq_partial : forall op tv xv xpy ub L R,
-  In ub all_val -> exc_ne op tv xv xpy L R = false ->
-  rc_plain WPy false op tv xv xpy ub L R = rc_plain WCy false op tv xv xpy ub L R
-  /\ snd (rc_plain WCy false op tv xv xpy ub L R) <> RFuel.
-Proof.
-  intros op tv xv xpy ub L R Hub He.
-  pose proof chk_rc_all as H.
-  rewrite forallb_forall in H. specialize (H op (all_cop_ok op)).
-  rewrite forallb_forall in H. specialize (H tv (all_view_ok tv)).
-  rewrite forallb_forall in H. specialize (H xv (all_view_ok xv)).
-  rewrite forallb_forall in H. specialize (H xpy (all_bool_ok xpy)).
-  rewrite forallb_forall in H. specialize (H ub Hub).
-  rewrite forallb_forall in H. specialize (H L (all_rcls_ok L)).
-  rewrite forallb_forall in H. specialize (H R (all_rcls_ok R)).
-  unfold chk_rc in H. rewrite He in H. simpl in H. apply andb_prop in H. destruct H as [H1 H2].
-  destruct (RM_eq_dec (rc_plain WPy false op tv xv xpy ub L R) (rc_plain WCy false op tv xv xpy ub L R)) as [E|E]; [|discriminate].
-  split; [exact E|]. unfold rnofuel in H2. intro Hf. rewrite Hf in H2. discriminate.
-Qed.
-
-(* finding: `x != y`, X a Python subclass overriding __eq__ of an extension type that has a generated
-   tp_richcompare without __ne__: X.__eq__ is not consulted *)
-Theorem richcmp_ne_refuted :
-  exists tv xv, rc_plain WPy false NE tv xv true CN rX rU = ([(rX, EQ, true)], RB true)
-             /\ rc_plain WCy false NE tv xv true CN rX rU = ([(rT, EQ, true)], RB false).
-Proof. exists (CU, CTr, false), (CU, CFa, false). vm_compute. split; reflexivity. Qed.
-
-(* ---- total_ordering: T defines __eq__ (answering True/False), no __ne__, at least one ordering method;
-   X a plain subclass; every operand pair except (T instance, subclass instance) *)
-Definition ordst := (cstate * cstate * cstate * cstate)%type.        (* lt le gt ge *)
-Definition all_ordst : list ordst := list_prod (list_prod (list_prod all_cstate all_cstate) all_cstate) all_cstate.
-Lemma all_ordst_ok : forall x, In x all_ordst.
-Proof. intros [[[a b] c] d]. repeat apply in_prod; apply all_cstate_ok. Qed.
-Definition st_of_ord (o : ordst) (e n : cstate) (m : cop) : cstate :=
-  let '(a, b, c, d) := o in match m with LT => a | LE => b | GT => c | GE => d | EQ => e | NE => n end.
-Definition has_ord (o : ordst) : bool :=
-  let '(a, b, c, d) := o in
-  negb (match a, b, c, d with CU, CU, CU, CU => true | _, _, _, _ => false end).
-Definition no_st (m : cop) : cstate := CU.
-Definition rc_tot (w : world) (o : ordst) (e n : cstate) (xpy : bool) (uo ue : cstate) (L R : rcls) (op : cop) : RM :=
-  rc_run w (st_of_ord o e n) no_st true xpy uo ue false L R op.
-
-Definition chk_tot (o : ordst) (eb : bool) (xpy : bool) (uo ue : cstate) (L R : rcls) (op : cop) : bool :=
-  let e := if eb then CTr else CFa in
-  negb (has_ord o) || (rcls_eqb L rT && rcls_eqb R rX) ||
-  ((if RM_eq_dec (rc_tot WPy o e CU xpy uo ue L R op) (rc_tot WCy o e CU xpy uo ue L R op) then true else false)
-   && rnofuel (rc_tot WCy o e CU xpy uo ue L R op)).
-Lemma chk_tot_all : forallb (fun o => forallb (fun eb => forallb (fun xpy => forallb (fun uo => forallb (fun ue =>
-  forallb (fun L => forallb (fun R => forallb (fun op => chk_tot o eb xpy uo ue L R op) all_cop) all_rcls) all_rcls)
-  all_val) all_val) all_bool) all_bool) all_ordst = true.
-Proof. vm_compute. reflexivity. Qed.
-
-Theorem richcmp_total_ordering_partial : forall o (eb xpy : bool) uo ue L R op,
-  In uo all_val -> In ue all_val -> has_ord o = true -> (L, R) <> (rT, rX) ->
-  let e := if eb then CTr else CFa in
-  rc_tot WPy o e CU xpy uo ue L R op = rc_tot WCy o e CU xpy uo ue L R op
-  /\ snd (rc_tot WCy o e CU xpy uo ue L R op) <> RFuel.
-Proof.
-  intros o eb xpy uo ue L R op Huo Hue Ho Hp e.
-  pose proof chk_tot_all as H.
-  rewrite forallb_forall in H. specialize (H o (all_ordst_ok o)).
-  rewrite forallb_forall in H. specialize (H eb (all_bool_ok eb)).
-  rewrite forallb_forall in H. specialize (H xpy (all_bool_ok xpy)).
-  rewrite forallb_forall in H. specialize (H uo Huo).
-  rewrite forallb_forall in H. specialize (H ue Hue).
-  rewrite forallb_forall in H. specialize (H L (all_rcls_ok L)).
-  rewrite forallb_forall in H. specialize (H R (all_rcls_ok R)).
-  rewrite forallb_forall in H. specialize (H op (all_cop_ok op)).
-  unfold chk_tot in H. rewrite Ho in H. simpl in H.
-  assert (Hx : rcls_eqb L rT && rcls_eqb R rX = false).
-  { destruct L, R; try reflexivity. exfalso; apply Hp; reflexivity. }
-  rewrite Hx in H. simpl in H. apply andb_prop in H. destruct H as [H1 H2]. fold e in H1, H2.
-  destruct (RM_eq_dec (rc_tot WPy o e CU xpy uo ue L R op) (rc_tot WCy o e CU xpy uo ue L R op)) as [E|E]; [|discriminate].
-  split; [exact E|]. unfold rnofuel in H2. intro Hf. rewrite Hf in H2. discriminate.
-Qed.
-
-Definition ord_lt (s : cstate) : ordst := (s, CU, CU, CU).
-(* F23: __eq__ answers NotImplemented: functools evaluates `self == other` (full protocol, reflected
-   U.__eq__ consulted, identity fallback), Cython hands the method's NotImplemented on *)
-Theorem richcmp_total_ordering_eq_ni_refuted :
-  rc_tot WPy (ord_lt CFa) CN CU true CN CTr rT rU LE = ([(rT, LT, true); (rT, EQ, true); (rU, EQ, false)], RB true)
-  /\ rc_tot WCy (ord_lt CFa) CN CU true CN CTr rT rU LE = ([(rT, LT, true); (rT, EQ, true); (rU, GE, false)], RTypeErr).
-Proof. vm_compute. split; reflexivity. Qed.
-(* both __eq__ and __ne__ defined: functools' `self != other` reaches __ne__, Cython calls __eq__ *)
-Theorem richcmp_total_ordering_ne_refuted :
-  rc_tot WPy (ord_lt CFa) CTr CTr true CN CN rT rT GT = ([(rT, LT, true); (rT, NE, true)], RB true)
-  /\ rc_tot WCy (ord_lt CFa) CTr CTr true CN CN rT rT GT = ([(rT, LT, true); (rT, EQ, true)], RB false).
-Proof. vm_compute. split; reflexivity. Qed.
-(* neither __eq__ nor __ne__: Cython switches the directive off (compile-time warning) *)
-Theorem richcmp_total_ordering_no_eq_refuted :
-  rc_tot WPy (ord_lt CFa) CU CU true CN CN rT rT GT = ([(rT, LT, true)], RB true)
-  /\ rc_tot WCy (ord_lt CFa) CU CU true CN CN rT rT GT = ([(rT, LT, false)], RB false).
-Proof. vm_compute. split; reflexivity. Qed.
-(* subclass instance on the right: functools' inner `self != other` gives the subclass priority *)
-Theorem richcmp_total_ordering_subclass_refuted :
-  exists o, rc_tot WPy o CTr CU true CN CN rT rX LT <> rc_tot WCy o CTr CU true CN CN rT rX LT.
-Proof. exists (CU, CTr, CN, CU). vm_compute. congruence. Qed.
